@@ -440,3 +440,107 @@ def strftime_census(rep, F):
                                 "instead of parse_date_yymmdd: JSON and MT disagree on the date near the window "
                                 "boundary" % (mod, sp), db["file"], db["line"]))
     return r
+
+
+# ---------------------------------------------------------------------------
+# T4: hand-written range guards on clock / calendar components
+
+# constructor -> per argument position (lowest, highest) value the component can take
+CHRONO_RANGES = {
+    "from_hms_opt": [(0, 23), (0, 59), (0, 59)],
+    "from_hms_milli_opt": [(0, 23), (0, 59), (0, 59), (0, 999)],
+    "from_ymd_opt": [None, (1, 12), (1, 31)],
+    "with_hour": [None, (0, 23)], "with_minute": [None, (0, 59)], "with_second": [None, (0, 59)],
+    "with_month": [None, (1, 12)], "with_day": [None, (1, 31)],
+}
+
+
+def t4(rep, F):
+    """a value handed to a chrono constructor as hour / minute / second / month / day: every comparison of that value
+    with a literal in the same function that *leaves* (rejects) must not cut into the component's range — a guard
+    `minutes >= 59` rejects a time the constructor, the MT parser and the serialiser all accept"""
+    r = rep.rule("T4", "range guards agree with the calendar: a local passed to NaiveTime::from_hms_opt / "
+                       "NaiveDate::from_ymd_opt (hour, minute, second, month, day position) is never rejected by a "
+                       "hand-written comparison for a value inside the component's range (0-23, 0-59, 1-12, 1-31)",
+                 floor=16)
+    for b in _fn_bodies(F):
+        comps = {}      # local id -> (lo, hi, what)
+        for n in walk(b["body"]):
+            if n.get("k") not in ("call", "mcall"):
+                continue
+            nm = callee(n).rsplit("::", 1)[-1]
+            rg = CHRONO_RANGES.get(nm)
+            if not rg or "chrono" not in (n.get("f") or n.get("inst") or callee(n)):
+                continue
+            args = list(n.get("args") or [])
+            if n.get("k") == "mcall":
+                args = [n.get("recv")] + args
+            for i, a in enumerate(args):
+                if i < len(rg) and rg[i] is not None:
+                    x = peel(a)
+                    while isinstance(x, dict) and x.get("k") == "cast":
+                        x = peel(x["e"])
+                    if isinstance(x, dict) and x.get("k") == "local":
+                        comps[x["id"]] = (rg[i][0], rg[i][1], "%s argument %d" % (nm, i))
+        if not comps:
+            continue
+        r["analysed"] += 1
+        r["instances"] += len(comps)       # one obligation per component local: no guard cuts into its range
+        for n in walk(b["body"]):
+            if n.get("k") != "if":
+                continue
+            t = n.get("then")
+            leaves = any(x.get("k") == "ret" for x in walk(t)) and \
+                any(x.get("k") == "call" and (x.get("f") or "").endswith("::Err") for x in walk(t))
+            if not leaves:
+                continue
+            for c in walk(n.get("cond")):
+                if c.get("k") != "bin" or c.get("op") not in (">", ">=", "<", "<=", "==", "!="):
+                    continue
+                l_, r_ = peel(c["l"]), peel(c["r"])
+                op = c["op"]
+                if isinstance(r_, dict) and r_.get("k") == "local" and isinstance(lit_val(l_), int):
+                    l_, r_ = r_, l_
+                    op = {">": "<", "<": ">", ">=": "<=", "<=": ">=", "==": "==", "!=": "!="}[op]
+                v = lit_val(r_)
+                if not (isinstance(l_, dict) and l_.get("k") == "local" and l_.get("id") in comps) or \
+                        not isinstance(v, int) or isinstance(v, bool):
+                    continue
+                lo, hi, what = comps[l_["id"]]
+                r["guards"] = r.get("guards", 0) + 1
+                # values of [lo, hi] the guard rejects
+                rej = [x for x in range(lo, hi + 1) if
+                       (op == ">" and x > v) or (op == ">=" and x >= v) or (op == "<" and x < v) or
+                       (op == "<=" and x <= v) or (op == "==" and x == v)]
+                if op == "!=":
+                    continue
+                # a disjunction / conjunction around the comparison only adds rejections when it is an `||` chain;
+                # inside `&&` the comparison alone does not reject
+                if rej and not _under_and(n.get("cond"), c):
+                    rep.add(Finding("T4", b["path"], "range:%s%s%d" % (what.split(" ")[0], op, v),
+                                    "%s rejects %s = %s (`%s %s %d`) although the component ranges over %d..=%d: a "
+                                    "value the MT side accepts and writes is refused here"
+                                    % (b["path"], l_.get("oname") or l_.get("name"), rej[0], l_.get("oname") or
+                                       l_.get("name"), op, v, lo, hi), b["file"], c.get("ln")))
+    return r
+
+
+def _under_and(cond, target):
+    """target sits below an `&&` inside cond"""
+    def go(n, under):
+        if n is target:
+            return under
+        if isinstance(n, dict):
+            u2 = under or (n.get("k") == "bin" and n.get("op") == "&&")
+            for k, v in n.items():
+                if isinstance(v, (dict, list)):
+                    res = go(v, u2)
+                    if res is not None:
+                        return res
+        elif isinstance(n, list):
+            for x in n:
+                res = go(x, under)
+                if res is not None:
+                    return res
+        return None
+    return bool(go(cond, False))
